@@ -223,15 +223,16 @@ PROPS = {
               'join built-in forces every wire but the flag to zero where the pair is not joined (unflagged entries are all zero); the guard computed for '
               'every pair of adjacent rows of the merged list (one iteration of the window loop of compile_bitonic_merge, lifted up to the callback): the pair '
               'is joined exactly when the keys agree bit for bit AND the tag bits differ (one row from each array - each common key once, never two rows of '
-              'the same array). The bitonic network '
+              'the same array); the rows handed to the merger (one iteration of each row-building loop, lifted): an element becomes its own wires, zero '
+              'padding up to max_elem_bits and the tag wire (0 for the first array, 1 for the second) inserted right after the key. The bitonic network '
               'topology (push_bitonic_merger / push_bitonic_sorter) and compile_bitonic_merge (padding, tag bit, duplicate guard) are NOT under '
               'contract: a bounded differential through compile + eval runs for-join loops and the join built-in for every size pair up to (4,4) '
               '(thorough (8,8)) on sorted key arrays (random keys incl. 0 and 255, identical and disjoint sets, one key repeated within one array) '
               'against a reference merge join (body once per common key with the matching payloads; flagged entries exactly the common keys, zero '
               'elsewhere, flags sorted).',
-        note='Trusted: as C04; MergeMode (a dyn callback) is an opaque stand-in in the lifted window iteration (R5e: the statements from the callback on are dropped). Unverified: network topology, the construction of the padded / tagged rows in compile_bitonic_merge.',
+        note='Trusted: as C04; MergeMode (a dyn callback) is an opaque stand-in in the lifted window iteration (R5e: the statements from the callback on are dropped). <[T]>::to_vec returns the slice contents (assume_specification). Unverified: network topology, the order of the rows (first array ascending, second descending).',
         title='join: compare-exchange layer (gt / condswap / eq) exact for every width; network topology unverified',
-        unverified=['push_bitonic_merger, push_bitonic_sorter (network topology)', 'compile_bitonic_merge: padding / tagging of the rows and the order of the merged list; JoinLoop lowering as a whole: bounded differential only'],
+        unverified=['push_bitonic_merger, push_bitonic_sorter (network topology)', 'compile_bitonic_merge: the order of the rows of the merged list, the empty rows; JoinLoop lowering as a whole: bounded differential only'],
     ),
     'C17': dict(
         units=['typing'],
